@@ -12,6 +12,7 @@ import (
 	"sort"
 	"strconv"
 	"strings"
+	"sync"
 	"time"
 
 	"gohbaseverif/kit"
@@ -52,6 +53,8 @@ func main() {
 		os.Exit(mutants(os.Args[2:]))
 	case "benign":
 		os.Exit(benign(os.Args[2:]))
+	case "seeds":
+		os.Exit(seeds(os.Args[2:]))
 	default:
 		usage()
 	}
@@ -401,6 +404,81 @@ func benign(args []string) int {
 			rc = 1
 		}
 		fmt.Printf("benign %-44s alarms=%d\n", m.Name, alarms)
+	}
+	return rc
+}
+
+// seeds runs every property on each seeded regression (mutants/seeds.json, generated from
+// seeded/*/patch.diff by tools/seeds_to_mutants.py) and prints which properties flag it. A seed that
+// no property flags, or that its own property does not flag, makes the command fail.
+func seeds(args []string) int {
+	fs := flag.NewFlagSet("seeds", flag.ExitOnError)
+	repo := fs.String("repo", envOr("VERIF_REPO", "/repo"), "")
+	verif := fs.String("verif", envOr("VERIF_DIR", defaultVerifDir()), "")
+	jsonOut := fs.Bool("json", false, "")
+	fs.Parse(args)
+	ms, err := props.LoadMutants(*verif, "seeds")
+	if err != nil {
+		fmt.Println(err)
+		return 1
+	}
+	var ids []string
+	for k := range props.Registry {
+		ids = append(ids, k)
+	}
+	sort.Strings(ids)
+	type res struct {
+		Name    string              `json:"name"`
+		Status  string              `json:"status,omitempty"`
+		Flagged []string            `json:"flagged_by"`
+		Reports map[string][]string `json:"reports,omitempty"`
+	}
+	results := make([]res, len(ms))
+	sem := make(chan struct{}, 6)
+	var wg sync.WaitGroup
+	for i := range ms {
+		wg.Add(1)
+		sem <- struct{}{}
+		go func(i int) {
+			defer wg.Done()
+			defer func() { <-sem }()
+			reps, status := props.RunMutantAll(*repo, ids, ms[i])
+			r := res{Name: ms[i].Name, Status: status, Reports: map[string][]string{}}
+			for _, id := range ids {
+				if len(reps[id]) > 0 {
+					r.Flagged = append(r.Flagged, id)
+					r.Reports[id] = reps[id]
+				}
+			}
+			results[i] = r
+		}(i)
+	}
+	wg.Wait()
+	rc := 0
+	if *jsonOut {
+		b, _ := json.MarshalIndent(results, "", " ")
+		os.Stdout.Write(append(b, '\n'))
+	}
+	for i, r := range results {
+		own := strings.SplitN(strings.TrimPrefix(r.Name, "seed-"), "-", 2)[0]
+		ownHit := false
+		for _, f := range r.Flagged {
+			if f == own {
+				ownHit = true
+			}
+		}
+		verdict := "caught"
+		if r.Status != "" {
+			verdict, rc = r.Status, 1
+		} else if len(r.Flagged) == 0 {
+			verdict, rc = "MISSED", 1
+		} else if !ownHit {
+			verdict = "caught-by-other"
+		}
+		_ = i
+		if !*jsonOut {
+			fmt.Printf("seed %-12s %-16s %v\n", r.Name, verdict, r.Flagged)
+		}
 	}
 	return rc
 }
